@@ -1,7 +1,7 @@
 From Coq Require Import String List Bool ZArith.
 From NRI Require Import Base.Strs Model.Consts Model.Event Model.Convert Run.Common Spec.ConvertSpec.
 Import ListNotations.
-Open Scope Z_scope.
+Local Open Scope Z_scope.
 
 (* mask cases: the mask, what PrettyString printed, what ParseEventMask returned for it *)
 Record mask_case := { mc_mask : Z; mc_pretty : string; mc_parsed : option Z }.
